@@ -195,6 +195,7 @@ func runC01(r *mon.Run) {
 	r.FloorFam("D-shift", 20)
 	r.FloorFam("E-index", 20)
 	r.FloorFam("F-degenerate", 50)
+	r.FloorFam("G-preimage", 20)
 	r.FloorAccept("ref-honest", 10)
 }
 
@@ -372,6 +373,28 @@ func c01Set(x *c01ctx, rng *rand.Rand, D []int) {
 			break
 		}
 	}
+	// G. digest / pre-image confusion at the message-length boundary: the issuer signed m = SHA-256(x) as an ordinary
+	// (short) attribute; the holder makes an honest proof disclosing m and then reports x instead. For x longer than Lm bits
+	// that is the scheme's own hashing rule (x and m are the same signed exponent); for x of exactly Lm or fewer bits the
+	// verifier must take x itself as the exponent and refuse.
+	for _, xb := range []uint{pk.Params.Lm - 1, pk.Params.Lm, pk.Params.Lm + 1, pk.Params.Lm + 9} {
+		xv := randBig(rng, int(xb))
+		xv.SetBit(xv, int(xb)-1, 1)
+		mDigest := refimpl.IntHash(xv.Bytes())
+		attrs := []*big.Int{randBig(rng, 255), mDigest, bi(77)}
+		c2, err := x.key.SignCred(attrs)
+		if err != nil {
+			continue
+		}
+		d2, err := c2.C.CreateDisclosureProof([]int{1}, nil, false, x.ctx, x.non)
+		if err != nil {
+			continue
+		}
+		d2.ADisclosed[1] = cp(xv)
+		x2 := &c01ctx{r: r, key: x.key, cred: c2, ctx: x.ctx, non: x.non}
+		x2.try("G-preimage", fmt.Sprintf("%s signed SHA-256(x), reported x of %d bits (Lm=%d)", desc, xb, pk.Params.Lm), d2)
+	}
+
 	// F. forgery without any credential: a randomised signature element A that is not a group element (0, a multiple
 	// of N, a multiple of one prime factor) makes factors of the reconstructed commitment collapse, so that the
 	// challenge can be computed up front from a guessed commitment and every other field chosen freely.
